@@ -7,20 +7,34 @@ E   Gen_AnsiBytes.cfg     TLC enumerates every line over the class-covering alph
                           carried state; Gen_AnsiGrammar.cfg simulates multi-line streams of well-formed chunks.
                           Replayed on the real extractColor (state carried as in core.go) and, for a sample, through
                           the real binary (`fzf --ansi -f ''`).
+    Gen_AnsiSgr.cfg       every SGR sequence of <= 2/3 parameter groups from a 35-group menu of the ways to write a group
+                          (ordinary, empty, legacy 38/48/58;..., colon groups incl. 38:2::r:g:b, renditions fzf cannot show),
+                          <= 3/4 groups from a 14-group menu: ':' and ';' mixed in one sequence, SGR 58/59, ignored codes.
 J   Judge_Ansi            long random grammar streams and arbitrary byte strings run on the real code, every record
                           evaluated by TLC (text = Strip, spans well-formed, colours = Colour while well-formed).
-Named deviations of the specification (StAsCsi, SkipEmptyParam) are predicted by TLC as alternatives; a case the real
-code only matches under a deviation is reported as a violation carrying that deviation's kf signature.
+Items (FzfAnsi Part C)    the real binary under tmux (`capture-pane -e`: text and colour/attributes of every cell) on
+                          multi-line streams with colours left open across lines, without --with-nth and with
+                          --with-nth 1.. / .. / 2..:  E = TLC-simulated streams from a menu of line shapes with the predicted
+                          rows (Gen_AnsiItems.cfg), J = random streams judged by Judge_AnsiItems; MC_AnsiItems checks
+                          `1.. shows what no --with-nth shows`, `hiding a field does not recolour the others`.
+Named deviations of the specification (StAsCsi, SkipEmptyParam, OpenSpanAtEol, MixedSep, Sgr58; CarryLag for items) are
+predicted by TLC as alternatives; a case the real code only matches under a deviation is reported as a violation carrying
+that deviation's kf signature.
 """
-import json, os, re, subprocess, time
+import json, os, random, re, subprocess, time, threading
+from concurrent.futures import ThreadPoolExecutor
 import vlib
+import tmuxdrv
 from vlib import Infra, replay_cases, judge, write_ndjson, read_ndjson, log
 
 TEST = "TestVerifAnsi"
 FILES = ["zz_verif_common_test.go", "zz_verif_ansi_test.go"]
 KF = {"StAsCsi": {"site": "nextAnsiEscapeSequence", "kind": "esc-backslash-taken-as-csi-introducer"},
       "SkipEmptyParam": {"site": "interpretCode", "kind": "empty-sgr-parameter-skipped"},
-      "OpenSpanAtEol": {"site": "extractColor", "kind": "open-span-not-extended-when-line-ends-with-sequence"}}
+      "OpenSpanAtEol": {"site": "extractColor", "kind": "open-span-not-extended-when-line-ends-with-sequence"},
+      "MixedSep": {"finding": "C11-D", "site": "parseAnsiCode", "kind": "mixed-separators"},
+      "Sgr58": {"finding": "C11-E", "site": "interpretCode", "kind": "sgr58-arguments-as-codes"},
+      "CarryLag": {"finding": "C11-F", "site": "core.Run/with-nth builder", "kind": "carried-state-lags-one-line"}}
 
 
 def kf_of(dv):
@@ -169,6 +183,8 @@ TEXTSYM = PRINT + ["e~", "e~", "a", "a", "m"]
 ALLSYM = PRINT + ["e~", "ESC", "BS", "SO", "SI", "BEL", "LF"]
 SINGLES = [0, 1, 2, 3, 4, 5, 7, 9, 22, 23, 24, 25, 27, 29, 39, 49, 8, 28, 10, 53, 55] + list(range(30, 38)) + \
     list(range(40, 48)) + list(range(90, 98)) + list(range(100, 108))
+IGNORED = [8, 28, 26, 50, 59] + list(range(10, 21)) + list(range(51, 56)) + list(range(60, 66)) + [73, 74, 75]   # FzfAnsi.Unrepresented
+BYTES = [0, 1, 2, 3, 4, 5, 7, 8, 9, 15, 16, 22, 24, 31, 38, 48, 58, 100, 208, 255]
 
 
 def num(n):
@@ -184,18 +200,31 @@ def join(parts, sep):
     return out
 
 
+def gen_colour(rng, colon, which=None):
+    """one colour as fields: legacy 38;5;n / 38;2;r;g;b (several fields) or a colon group (one field)"""
+    w = which or rng.choice([38, 48, 38, 48, 58])
+    byte = lambda: num(rng.choice(BYTES + [rng.randrange(256)]))
+    if rng.random() < 0.5:
+        parts = [num(w), ["5"], byte()]
+    else:
+        parts = [num(w), ["2"]] + ([[]] if colon and rng.random() < 0.5 else []) + [byte(), byte(), byte()]
+    return [join(parts, ":")] if colon else parts
+
+
 def gen_sgr(rng, exotic):
     groups = []
     for _ in range(rng.choice([0, 1, 1, 1, 2, 2, 3, 4, 5])):
         k = rng.random()
-        if k < 0.55:
+        if k < 0.45:
             g = [num(rng.choice(SINGLES))]
             if rng.random() < 0.1:
                 g = [["0"] + g[0]]
-        elif k < 0.78:
-            g = [num(rng.choice([38, 48])), ["5"], num(rng.choice([0, 1, 2, 5, 7, 8, 15, 16, 38, 48, 255, rng.randrange(256)]))]
+        elif k < 0.55:
+            g = [num(rng.choice(IGNORED))]
+        elif k < 0.82:
+            g = gen_colour(rng, False)
         elif k < 0.97 or exotic != "empty":
-            g = [num(rng.choice([38, 48])), ["2"]] + [num(rng.choice([0, 2, 5, 38, 255, rng.randrange(256)])) for _ in range(3)]
+            g = gen_colour(rng, True)                  # a colon group among ';'-separated parameters
         else:
             g = [[]]
         groups += g
@@ -209,13 +238,7 @@ def gen_chunk(rng, exotic):
     if k < 0.58:
         return gen_sgr(rng, exotic)
     if k < 0.63:
-        w, f = rng.choice([38, 48]), rng.random()
-        if f < 0.4:
-            body = join([num(w), ["5"], num(rng.randrange(256))], ":")
-        else:
-            rgb = [num(rng.randrange(256)) for _ in range(3)]
-            body = join([num(w), ["2"]] + ([[]] if f < 0.7 else []) + rgb, ":")
-        return ["ESC", "["] + body + ["m"]
+        return ["ESC", "["] + gen_colour(rng, True)[0] + ["m"]
     if k < 0.73:
         st = rng.choice([["BEL"], ["ESC", "BSL"]])
         if rng.random() < 0.4:
@@ -367,21 +390,274 @@ def end_to_end(ctx, cases, st, extra_args, label):
     return len(sel)
 
 
+# ------------------------------------------------------------------ items on the screen (FzfAnsi Part C)
+# Neutral theme: what a cell shows is what --ansi attached to the character (the item under the cursor is the sentinel line).
+ITEM_ARGS = ["--ansi", "--reverse", "--info=hidden", "--no-separator", "--no-bold", "--no-hscroll", "--no-multi",
+             "--color=fg:-1,bg:-1,fg+:-1,bg+:-1,gutter:-1,hl:-1,hl+:-1"]
+NTH_MODES = [(0, []), (1, ["--with-nth", "1.."]), (1, ["--with-nth", ".."]), (2, ["--with-nth", "2.."])]
+SENTINEL = ["@", " ", "@"]
+ATTR_ORDER = ["bold", "dim", "italic", "underline", "blink", "reverse", "strike"]
+# observation table: how tmux (capture-pane -e) writes down the rendition of a cell -> vocabulary of FzfAnsi.tla
+TMUX_ATTR = {1: "bold", 2: "dim", 3: "italic", 4: "underline", 5: "blink", 7: "reverse", 9: "strike"}
+SYM_OF_CHAR = {"é": "e~", "\\": "BSL"}
+
+
+def tmux_cells(line, st):
+    """one captured row -> [(char, fg, bg, attrs)]; the rendition is carried from cell to cell (and row to row: st) by
+    tmux's own SGR codes"""
+    cells, i = [], 0
+    fg, bg, at = st["fg"], st["bg"], st["at"]
+    while i < len(line):
+        ch = line[i]
+        if ch != "\x1b":
+            cells.append((ch, list(fg), list(bg), [a for a in ATTR_ORDER if a in at]))
+            i += 1
+            continue
+        m = re.match(r"\x1b\[([0-9;]*)m", line[i:])
+        if not m:
+            raise Infra("capture-pane -e: unexpected control sequence %r" % line[i:i + 12])
+        i += m.end()
+        ps = [int(x) if x else 0 for x in m.group(1).split(";")]
+        k = 0
+        while k < len(ps):
+            n = ps[k]
+            if n == 0:
+                fg, bg, at = [], [], set()
+            elif n in TMUX_ATTR:
+                at = at | {TMUX_ATTR[n]}
+            elif 30 <= n <= 37 or 90 <= n <= 97:
+                fg = [n - 30 if n < 90 else n - 90 + 8]
+            elif 40 <= n <= 47 or 100 <= n <= 107:
+                bg = [n - 40 if n < 100 else n - 100 + 8]
+            elif n == 39:
+                fg = []
+            elif n == 49:
+                bg = []
+            elif n in (38, 48) and ps[k + 1:k + 2] == [5] and len(ps) >= k + 3:
+                fg, bg = ([ps[k + 2]], bg) if n == 38 else (fg, [ps[k + 2]])
+                k += 2
+            elif n in (38, 48) and ps[k + 1:k + 2] == [2] and len(ps) >= k + 5:
+                fg, bg = (ps[k + 2:k + 5], bg) if n == 38 else (fg, ps[k + 2:k + 5])
+                k += 4
+            else:
+                raise Infra("capture-pane -e: rendition code %d of %r is not in the observation table" % (n, m.group(0)))
+            k += 1
+    st["fg"], st["bg"], st["at"] = fg, bg, at
+    return cells
+
+
+def screen_rows(raw, n):
+    """rows 1..n of the pane (row 0 is the prompt) without the two pointer columns and without blanks at the end:
+    [{"text": symbols, "attrs": [[count, {"fg","bg","at"}], ...]}]"""
+    lines = raw.split("\n")
+    state = {"fg": [], "bg": [], "at": set()}
+    rows = []
+    for r in range(0, n + 1):
+        cells = tmux_cells(lines[r], state) if r < len(lines) else []
+        if r == 0:
+            continue
+        cells = cells[2:]
+        while cells and cells[-1][0] == " ":
+            cells.pop()
+        text, attrs = [], []
+        for ch, fg, bg, at in cells:
+            text.append(SYM_OF_CHAR.get(ch, ch if " " <= ch <= "~" else "U+%04X" % ord(ch)))
+            v = {"fg": fg, "bg": bg, "at": at}
+            if attrs and attrs[-1][1] == v:
+                attrs[-1][0] += 1
+            else:
+                attrs.append([1, v])
+        rows.append({"text": text, "attrs": attrs})
+    return rows
+
+
+def item_rows(ctx, fzf, lines, nth_args, slow=False):
+    """the real binary on a pty: feeds the lines, waits for the complete list to be drawn, returns the rows of the list"""
+    n = len(lines)
+    data = b"".join(to_bytes(l) + b"\n" for l in lines)
+    for attempt in (0, 1):
+        s = tmuxdrv.Session(ctx, fzf, ITEM_ARGS + nth_args, input_data=data, width=100, height=n + 2, listen=False)
+        try:
+            def drawn(tr):
+                k = next((i for i, e in enumerate(tr) if e["ev"] == "term.list" and not e.get("reading") and e.get("n") == n), None)
+                return k is not None and any(e["ev"] == "term.render" and e.get("what") == "flush" for e in tr[k:])
+            s.wait_for(drawn, timeout=60 if attempt == 0 else 180, what="complete list drawn")
+            same, prev, t0 = 0, None, time.time()
+            while True:
+                rows = screen_rows(s.tmux("capture-pane", "-e", "-p", "-t", "s"), n)
+                same = same + 1 if rows == prev else 0
+                if same >= (4 if slow else 2):
+                    return rows
+                prev = rows
+                if time.time() - t0 > 60:
+                    raise Infra("the screen of an items session never settled")
+                time.sleep(0.1 if slow else 0.03)
+        except Infra:
+            if attempt == 1:
+                raise
+        finally:
+            s.close()
+
+
+def show_rows(rows):
+    return json.dumps([["".join(SYMB[x].decode() if x in SYMB else x for x in r["text"]),
+                        [[k, v["fg"], v["bg"], v["at"]] for k, v in r["attrs"]]] for r in rows])
+
+
+def items_violation(ctx, st, label, lines, f, args, exp, got, dev):
+    """dev: name of the deviation under which TLC predicts exactly what was seen, or None"""
+    if dev:
+        st.dev_hits["items:" + dev] = st.dev_hits.get("items:" + dev, 0) + 1
+        if st.dev_reported.get("items:" + dev, 0) >= 2:
+            return
+        st.dev_reported["items:" + dev] = st.dev_reported.get("items:" + dev, 0) + 1
+    else:
+        st.dev_reported["items:-"] = st.dev_reported.get("items:-", 0) + 1
+        if st.dev_reported["items:-"] > 5:
+            return
+    i = vlib.first_diff(exp, got) if exp is not None else -1
+    case = {"items": {"lines": lines, "from": f, "args": args}, "label": label,
+            "cmd": "printf %s | fzf %s" % (json.dumps("\n".join(show(l) for l in lines)), " ".join(ITEM_ARGS + args))}
+    if dev:
+        case["kf"] = KF[dev]
+    ctx.violation("%s: items shown by `fzf --ansi %s` for the lines %s: %s real rows %s%s" % (
+        label, " ".join(args), json.dumps([show(l) for l in lines]),
+        ("row %d: spec %s," % (i + 1, show_rows(exp[i:i + 1]) if 0 <= i < len(exp) else "-")) if exp is not None else "spec rejects the",
+        show_rows(got[i:i + 1]) if exp is not None and 0 <= i < len(got) else show_rows(got),
+        (" (explained exactly by deviation %s)" % dev) if dev else ""), case)
+
+
+def gen_item_sgr(rng):
+    if rng.random() < 0.12:
+        return ["ESC", "["] + gen_colour(rng, True, which=rng.choice([38, 48]))[0] + ["m"]        # a colon group on its own
+    groups = []
+    for _ in range(rng.choice([0, 1, 1, 1, 2, 2, 3])):
+        k = rng.random()
+        if k < 0.7:
+            groups += [num(rng.choice(SINGLES + [0, 0, 39, 49, 22]))]
+        elif k < 0.78:
+            groups += [num(rng.choice(IGNORED))]
+        else:
+            groups += gen_colour(rng, False, which=rng.choice([38, 48]))
+    return ["ESC", "["] + join(groups, ";") + ["m"]
+
+
+ITEM_CHARS = list("amKBHJlcM0123456789") + ["e~", "e~", "[", ";", "/", "="]
+
+
+def gen_item_line(rng):
+    """1..4 fields; sequences stand next to a non-blank; no blank at either end of the line"""
+    ln = []
+    for w in range(rng.choice([1, 2, 2, 2, 3, 3, 4])):
+        if w:
+            ln += [" "] * rng.choice([1, 1, 1, 2])
+        if rng.random() < 0.45:
+            ln += gen_item_sgr(rng)
+        ln += [rng.choice(ITEM_CHARS) for _ in range(rng.randint(1, 3))]
+        if rng.random() < 0.2:
+            ln += gen_item_sgr(rng)
+            if rng.random() < 0.5:
+                ln += [rng.choice(ITEM_CHARS)]
+    return ln
+
+
+def items_part(ctx, st):
+    fzf = ctx.build_fzf()
+    lock = threading.Lock()
+
+    def observe(jobs, slow=False):
+        """jobs: [(lines, from, args)] -> rows, a few sessions at a time"""
+        with ThreadPoolExecutor(max_workers=1 if slow else 6) as ex:
+            return list(ex.map(lambda j: item_rows(ctx, fzf, j[0], j[2], slow=slow), jobs))
+
+    # ---- E: TLC-simulated streams with the predicted rows
+    depth = ctx.pick(18, 30)
+    ncases = ctx.pick(5, 40)
+    gen = ctx.tlc("MC_Ansi", "Gen_AnsiItems.cfg", workers=1, timeout=1200, label="items-gen", env={"DEPTH": depth},
+                  args=["-simulate", "num=%d" % ncases, "-depth", str(depth + 1), "-seed", str(ctx.seed)])
+    cases = gen.json_items("CASE")
+    if len(cases) < ncases:
+        raise Infra("TLC exported only %d item streams" % len(cases))
+    cases = cases[:ncases]
+    jobs = [(c["lines"], f, args, c) for c in cases for f, args in NTH_MODES]
+    res = observe(jobs)
+    open_lines = lag_cases = 0
+    for (lines, f, args, c), rows in zip(jobs, res):
+        exp = c["exp"][f]
+        lag_cases += c["lag"][f] != exp
+        if rows == exp:
+            continue
+        rows1 = observe([(lines, f, args)], slow=True)[0]
+        if rows1 == exp:
+            raise Infra("items: mismatch not reproduced when run alone: %s %s" % (json.dumps([show(l) for l in lines]), args))
+        items_violation(ctx, st, "items", lines, f, args, exp, rows1, "CarryLag" if rows1 == c["lag"][f] else None)
+    for c in cases:
+        open_lines += sum(1 for r in c["exp"][0][1:] if r["attrs"] and r["attrs"][0][1] != {"fg": [], "bg": [], "at": []})
+    if not lag_cases or not open_lines:
+        raise Infra("item streams without a colour carried into a line of two fields")
+    ctx.cov["evaluations"] += len(jobs)
+    ctx.cov["traces_validated_against_impl"] += len(jobs)
+    ctx.sample({"item_stream": [show(l) for l in cases[0]["lines"][:6]], "with_nth_2..": json.loads(show_rows(cases[0]["exp"][2][:6]))})
+    log("items E: %d streams of %d lines x 4 modes, elapsed %.0fs" % (len(cases), depth + 1, time.time() - ctx.t0))
+
+    # ---- J: random streams, the rows judged by TLC
+    rng = random.Random(ctx.seed * 7919 + 11)          # its own generator: this part runs beside the others
+    streams = [[SENTINEL] + [gen_item_line(rng) for _ in range(rng.choice([8, 16, 28]))] for _ in range(ctx.pick(5, 60))]
+    jobs = [(ls, f, args) for ls in streams for f, args in NTH_MODES]
+    res = observe(jobs)
+    recs = [{"lines": ls, "from": f, "rows": rows} for (ls, f, args), rows in zip(jobs, res)]
+    bad, jr = judge(ctx, "Judge_AnsiItems", "Judge_AnsiItems.cfg", recs, "items-random", workers=WORKERS, timeout=1200)
+    tags = dev_tags(jr)
+    for i in bad:
+        ls, f, args = jobs[i]
+        d = tags.get(i)
+        if (d and st.dev_reported.get("items:" + d, 0) >= 2) or (not d and st.dev_reported.get("items:-", 0) >= 5):
+            st.dev_hits["items:" + (d or "-")] = st.dev_hits.get("items:" + (d or "-"), 0) + 1      # enough of these reported
+            continue
+        one = [{"lines": ls, "from": f, "rows": observe([jobs[i]], slow=True)[0]}]
+        bad1, res1 = judge(ctx, "Judge_AnsiItems", "Judge_AnsiItems.cfg", one, "items-re", workers=1)
+        if not bad1:
+            raise Infra("items-random: rejected record %d not reproduced when run alone" % i)
+        items_violation(ctx, st, "items-random", ls, f, args, None, one[0]["rows"], dev_tags(res1).get(0))
+    ctx.cov["item_sessions"] = ctx.cov.get("item_sessions", 0) + len(jobs) + len(cases) * len(NTH_MODES)
+    log("items J: %d streams x 4 modes, elapsed %.0fs" % (len(streams), time.time() - ctx.t0))
+    return len(cases) + len(streams)
+
+
+def prefetch(ex, jobs, fn, ahead=3):
+    """runs fn over jobs on the executor, at most `ahead` at a time, yielding (job, result) in order"""
+    it, futs = iter(jobs), []
+    for j in it:
+        futs.append((j, ex.submit(fn, j)))
+        if len(futs) >= ahead:
+            break
+    while futs:
+        j, f = futs.pop(0)
+        r = f.result()
+        nxt = next(it, None)
+        if nxt is not None:
+            futs.append((nxt, ex.submit(fn, nxt)))
+        yield j, r
+
+
 def run(ctx):
     st = Stats()
     q = ctx.quick
     # ---------------------------------------------------------------- (1) model checking of the design
-    for cfg in (["MC_Ansi_quick.cfg", "MC_AnsiGrammar_quick.cfg"] if q else ["MC_Ansi.cfg", "MC_AnsiGrammar.cfg"]):
-        grammar = "Grammar" in cfg
-        mc = ctx.mc("MC_Ansi", cfg, timeout=2400, coverage=grammar, workers=WORKERS, label=cfg[:-4])
-        if grammar:
+    pool = ThreadPoolExecutor(max_workers=4)            # TLC runs that do not depend on each other overlap
+    mcs = (["MC_AnsiSgr_quick.cfg", "MC_AnsiItems_quick.cfg", "MC_Ansi_quick.cfg", "MC_AnsiGrammar_quick.cfg"] if q else
+           ["MC_AnsiSgr.cfg", "MC_AnsiItems.cfg", "MC_Ansi.cfg", "MC_AnsiGrammar.cfg", "MC_AnsiGrammarDev.cfg"])
+    mcw = WORKERS or ctx.pick(4, 8)
+    for cfg, mc in prefetch(pool, mcs, lambda cfg: ctx.mc("MC_Ansi", cfg, timeout=2400, coverage=cfg.startswith("MC_AnsiGrammar.") or cfg.startswith("MC_AnsiGrammar_"), workers=mcw,
+                                                          label=cfg[:-4]), ahead=ctx.pick(4, 2)):
+        if cfg.startswith("MC_AnsiGrammar.") or cfg.startswith("MC_AnsiGrammar_"):
             cov = action_counts(mc)
             ctx.cov["action_coverage"][cfg[:-4]] = cov
             dead = [a for a in ["GText", "GCtl", "GStruck", "GSt", "GSgrOpen", "GGroup", "GEmpty", "GSgrClose", "GNewLine"]
                     if cov.get(a, 0) == 0]
             if dead:
                 raise Infra("vacuous model (%s): actions never taken: %s (coverage %s)" % (cfg, dead, cov))
-        elif mc.distinct < 1000:          # the only action appends one symbol; every state but the root is its result
+        elif mc.distinct < (200 if "Sgr" in cfg or "Items" in cfg else 1000):   # every state but the root is the result of an action
             raise Infra("vacuous model (%s): %d states" % (cfg, mc.distinct))
         log("MC %s: %d states, %.0fs" % (cfg, mc.distinct, mc.wall))
 
@@ -399,32 +675,65 @@ def run(ctx):
                          kf=lambda c, exp, r1: kf_of(deviation_of(c, r1.get("got"))))
         elif "record" in rc:
             judge_records(ctx, h, [{"lines": rc["record"]["lines"]}], "replay", st)
+        elif "items" in rc:
+            it = rc["items"]
+            fzf = ctx.build_fzf()
+            one = [{"lines": it["lines"], "from": it["from"], "rows": item_rows(ctx, fzf, it["lines"], it["args"], slow=True)}]
+            bad1, res1 = judge(ctx, "Judge_AnsiItems", "Judge_AnsiItems.cfg", one, "replay-items", workers=1)
+            if bad1:
+                items_violation(ctx, st, "replay-items", it["lines"], it["from"], it["args"], None, one[0]["rows"], dev_tags(res1).get(0))
         elif "line" in rc:
             end_to_end(ctx, [{"lines": [rc["line"]], "exp": [{"text": rc["expected_text"]}], "alts": []}], st, [], "replay-binary")
         return "model_checking"
 
-    # ---------------------------------------------------------------- (2) E: all short lines
-    # (alphabet, longest variable part, previous line, sharded by first symbol?)
+    # ---------------------------------------------------------------- (4b, started early) items on the screen
+    ctx.build_fzf()
+    items_future = pool.submit(items_part, ctx, st)
+
+    # ---------------------------------------------------------------- (2) E: all short lines, all short SGR parameter
+    # strings, (3) grammar streams: the exports are prefetched (TLC runs ahead of the replay on the real code)
+    # bytes: (alphabet, longest variable part, previous line, sharded by first symbol?)
     plans = ([("full", 4, "0", False), ("full", 3, "1", False), ("osc", 4, "0", False), ("csi", 4, "0", False)] if q else
              [("full", 4, "01", False), ("red", 5, "0", True), ("osc", 5, "01", False), ("csi", 5, "0", True),
               ("csi", 4, "1", False)])
     nshards = {"full": 24, "red": 17, "osc": 11, "csi": 14}
-    judged, e2e_pool, exhaustive_counts = [], [], {}
+    num = ctx.pick(30, 150)                # grammar: traces per worker; every successor of the last step is exported
+    jobs = []
     for alpha, maxlen, pres, sharded in plans:
-        total = 0
         for shard in (range(1, nshards[alpha] + 1) if sharded else [0]):
-            label = "bytes-%s%d-p%s-s%d" % (alpha, maxlen, pres, shard)
-            gen = ctx.tlc("MC_Ansi", "Gen_AnsiBytes.cfg", workers=WORKERS, timeout=2400, label=label,
-                          env={"ALPHA": alpha, "MAXLEN": maxlen, "PRES": pres, "SHARD": shard})
-            cases = gen.json_items("CASE")
-            if len(cases) != gen.distinct or not cases:
-                raise Infra("%s: TLC visited %d states but exported %d cases" % (label, gen.distinct, len(cases)))
-            res = replay_split(ctx, h, cases, label, st)
-            classify(st, cases)
-            total += len(cases)
-            log("E %s: %d cases (TLC %.0fs), elapsed %.0fs" % (label, len(cases), gen.wall, time.time() - ctx.t0))
-            if len(res) <= 45000 and not sharded and pres != "01":
-                judged += res
+            jobs.append({"kind": "bytes", "label": "bytes-%s%d-p%s-s%d" % (alpha, maxlen, pres, shard), "cfg": "Gen_AnsiBytes.cfg",
+                         "env": {"ALPHA": alpha, "MAXLEN": maxlen, "PRES": pres, "SHARD": shard}, "args": [], "workers": WORKERS or 8,
+                         "alpha": alpha, "maxlen": maxlen, "pres": pres, "sharded": sharded})
+    for menu, maxlen, pres in ([("full", 2, "01"), ("red", 3, "0")] if q else [("full", 3, "01"), ("red", 4, "0")]):
+        jobs.append({"kind": "sgr", "label": "sgr-%s%d-p%s" % (menu, maxlen, pres), "cfg": "Gen_AnsiSgr.cfg",
+                     "env": {"MENU": menu, "MAXLEN": maxlen, "PRES": pres}, "args": [], "workers": WORKERS or 8,
+                     "menu": menu, "maxlen": maxlen, "pres": pres})
+    for depth in ((9,) if q else (7, 12)):
+        jobs.append({"kind": "grammar", "label": "grammar-d%d" % depth, "cfg": "Gen_AnsiGrammar.cfg", "env": {"DEPTH": depth},
+                     "args": ["-simulate", "num=%d" % num, "-depth", str(depth + 1), "-seed", str(ctx.seed)], "workers": 8})
+    judged, e2e_pool, exhaustive_counts, gcases = [], [], {}, []
+    for j, gen in prefetch(pool, jobs, lambda j: ctx.tlc("MC_Ansi", j["cfg"], workers=j["workers"], timeout=2400, label=j["label"],
+                                                         env=j["env"], args=j["args"]), ahead=3):
+        label = j["label"]
+        cases = gen.json_items("CASE")
+        if j["kind"] == "grammar":
+            if len(cases) < num:
+                raise Infra("TLC exported only %d grammar behaviours" % len(cases))
+            gcases += cases
+            continue
+        if len(cases) != gen.distinct or not cases:
+            raise Infra("%s: TLC visited %d states but exported %d cases" % (label, gen.distinct, len(cases)))
+        if j["kind"] == "sgr" and not all(e["wf"] for c in cases for e in c["exp"]):
+            raise Infra("%s: a parameter string of the menu is outside the well-formed grammar" % label)
+        res = replay_split(ctx, h, cases, label, st)
+        classify(st, cases)
+        log("E %s: %d cases (TLC %.0fs), elapsed %.0fs" % (label, len(cases), gen.wall, time.time() - ctx.t0))
+        if j["kind"] == "bytes":
+            alpha, pres = j["alpha"], j["pres"]
+            key = "%s<=%d prev=%s" % (alpha, j["maxlen"], pres)
+            exhaustive_counts[key] = exhaustive_counts.get(key, 0) + len(cases)
+            if len(res) <= 45000 and not j["sharded"] and pres != "01":
+                judged += res[::ctx.pick(2, 1)]
             if alpha == "full" and pres != "1":
                 e2e_pool += [c for c in cases if len(c["lines"]) == 1 and len(c["lines"][0]) >= 2][::ctx.pick(40, 25)]
             if alpha in ("osc", "csi") and pres == "0":
@@ -433,20 +742,18 @@ def run(ctx):
                 c = next((c for c in cases if len(c["lines"][-1]) >= 3 and len(c["exp"][-1]["text"]) not in (0, len(c["lines"][-1]))), None)
                 if c:
                     ctx.sample({"lines": [show(l) for l in c["lines"]], "predicted": c["exp"]})
-            del cases, res, gen
-        exhaustive_counts["%s<=%d prev=%s" % (alpha, maxlen, pres)] = total
+        else:
+            for c in cases:
+                body = c["lines"][-1][2:-2]
+                st.count("sgr_mixed_separators", ":" in body and ";" in body)
+                st.count("sgr_58", "".join(body).find("58") >= 0)
+            judged += res[::ctx.pick(1, 8)]
+            exhaustive_counts["sgr %s groups<=%d prev=%s" % (j["menu"], j["maxlen"], j["pres"])] = len(cases)
+            c = next((c for c in cases if ":" in c["lines"][-1] and ";" in c["lines"][-1] and c["exp"][-1]["final"]["at"]), None)
+            if c and j["maxlen"] == 2:
+                ctx.sample({"lines": [show(l) for l in c["lines"]], "predicted": c["exp"]})
+        del cases, res, gen
 
-    # ---------------------------------------------------------------- (3) E: grammar streams (TLC -simulate)
-    num = ctx.pick(30, 150)                # traces per worker; every successor of the last step is exported
-    gw = 8
-    gcases = []
-    for depth in ((9,) if q else (7, 12)):
-        gen = ctx.tlc("MC_Ansi", "Gen_AnsiGrammar.cfg", workers=gw, timeout=2400, label="grammar-d%d" % depth,
-                      env={"DEPTH": depth}, args=["-simulate", "num=%d" % num, "-depth", str(depth + 1), "-seed", str(ctx.seed)])
-        cs = gen.json_items("CASE")
-        if len(cs) < num:
-            raise Infra("TLC exported only %d grammar behaviours" % len(cs))
-        gcases += cs
     bad_wf = [c for c in gcases if not all(e["wf"] for e in c["exp"])]
     if bad_wf:
         raise Infra("grammar generator left the well-formed domain: %s" % json.dumps(bad_wf[0]["lines"]))
@@ -480,6 +787,8 @@ def run(ctx):
     judge_records(ctx, h, inputs, "random-bytes", st)
 
     log("J done, elapsed %.0fs" % (time.time() - ctx.t0))
+    nitems = items_future.result()
+    pool.shutdown()
     # ---------------------------------------------------------------- (5) end to end: what the binary prints
     ne = end_to_end(ctx, e2e_pool, st, [], "binary")
     ne += end_to_end(ctx, e2e_pool[::3], st, ["+s"], "binary-streaming")
@@ -495,13 +804,22 @@ def run(ctx):
     ctx.cov["deviation_hits"] = st.dev_hits
     ctx.cov["binary_lines_compared"] = ne
     ctx.cov["judged_random_records"] = 3 * nj
+    ctx.cov["item_streams"] = nitems
     ctx.assumptions += [
         "characters are symbols of a 40-symbol vocabulary (one non-ASCII character, e-acute); invalid UTF-8 is not modelled",
-        "colours are specified only for well-formed streams: ';'-separated SGR parameters (empty = 0) with complete "
-        "38/48;5;n and 38/48;2;r;g;b groups, or one colon-form colour (38:5:n, 38:2:r:g:b, 38:2::r:g:b); mixed ':'/';' "
-        "forms, truncated 38/48 groups, '?' parameters, SGR 6/21/58 and OSC 8 with parameters but no URI are outside "
-        "(robustness, stripping and span well-formedness only)",
-        "renditions fzf cannot represent (8/28 conceal, 10 font, 53/55 overline) are projected away",
+        "colours are specified only for well-formed streams: SGR parameters separated by ';' (empty = 0), each either an ordinary "
+        "parameter or a colon group carrying one colour (38:5:n, 38:2:r:g:b, 38:2::r:g:b; likewise 48 and 58), colon groups and "
+        "ordinary parameters mixed freely in one sequence; legacy 38/48/58;5;n and 38/48/58;2;r;g;b complete; truncated colour "
+        "groups, other sub-parameters (4:3), a non-empty colour-space identifier, '?' parameters, SGR 6, 21, 56, 57 and OSC 8 with "
+        "parameters but no URI are outside (robustness, stripping and span well-formedness only)",
+        "renditions fzf cannot represent are projected away: 8/28 conceal, 10-20 fonts, 26/50 proportional spacing, 51-55 framed / "
+        "encircled / overlined, 60-65 ideogram markings, 73-75 super/subscript, and the colour of underlines (58 with its "
+        "arguments, 59) - each must leave fg/bg/attributes and the meaning of the following parameters alone",
+        "items on the screen (Part C): SGR sequences only (no OSC 8, no 0K: tmux 3.3a does not report hyperlinks), default AWK-style "
+        "fields, --with-nth N.. selections (1.., .., 2..), sequences adjacent to a non-blank, blanks at the end of a row not "
+        "observed; the rule `a line starts in the state in which the text shown for the previous line ended` is the "
+        "integrator's reading of `state carried over from the previous line` for both item builders; neutral theme "
+        "(--color fg/bg/fg+/bg+/gutter/hl = -1, --no-bold), cursor on a plain sentinel line",
         "CODE-DERIVED: 'ESC ] 8 ; ; ESC' without backslash is one sequence; a non-SGR sequence ending in 0K copies the "
         "background into the line background (ESC[K alone does not); the line background is carried like the rest of the state",
     ]
